@@ -1713,4 +1713,147 @@ theorem utree_rooted_last_alone (m : Nat) (d : List Nat)
   rw [show 2 + m = m + 2 by omega] at this ⊢
   exact this
 
+/-! ## `--replace`: with at least one tree every slot is filled -/
+
+theorem replRow_allSome (x : α) : ∀ (out : List (Option α)) (ds : List Nat),
+    out.all (·.isSome) = true → (replRow x out ds).1.all (·.isSome) = true
+  | [], ds, _ => by simp [replRow]
+  | s :: ss, [], h => by simpa [replRow] using h
+  | s :: ss, r :: ds, h => by
+    simp only [List.all_cons, Bool.and_eq_true] at h
+    simp only [replRow, List.all_cons, Bool.and_eq_true]
+    refine ⟨?_, replRow_allSome x ss ds h.2⟩
+    by_cases hr : (r == 0) = true <;> simp [hr, h.1]
+
+theorem replLoop_allSome : ∀ (xs : List α) (out : List (Option α)) (ds : List Nat),
+    out.all (·.isSome) = true → (replLoop xs out ds).all (·.isSome) = true
+  | [], out, ds, h => by simpa [replLoop] using h
+  | x :: xs, out, ds, h => by
+    simp only [replLoop]
+    exact replLoop_allSome xs _ _ (replRow_allSome x out ds h)
+
+theorem replRow_first (x : α) : ∀ (k : Nat) (ds : List Nat), k ≤ ds.length → (∀ r ∈ ds.take k, r = 0) →
+    (replRow x (List.replicate k none) ds).1 = List.replicate k (some x)
+  | 0, ds, _, _ => by simp [replRow]
+  | k + 1, [], h, _ => by simp at h
+  | k + 1, r :: ds, h, h0 => by
+    have hr : r = 0 := h0 r (by simp)
+    subst hr
+    simp only [List.replicate_succ, replRow]
+    rw [replRow_first x k ds (by simpa using h) (fun r hr => h0 r (by simp [hr]))]
+    simp
+
+theorem inBounds_replicate_one : ∀ (k : Nat) (rest ds : List Nat),
+    inBounds (List.replicate k 1 ++ rest) ds = true → k ≤ ds.length ∧ ∀ r ∈ ds.take k, r = 0
+  | 0, _, _, _ => by simp
+  | k + 1, rest, [], h => by simp [List.replicate_succ, inBounds] at h
+  | k + 1, rest, r :: ds, h => by
+    simp only [List.replicate_succ, List.cons_append, inBounds, Bool.and_eq_true, decide_eq_true_eq] at h
+    obtain ⟨h1, h2⟩ := inBounds_replicate_one k rest ds h.2
+    refine ⟨by simp; omega, ?_⟩
+    intro r' hr'
+    simp only [List.take_succ_cons, List.mem_cons] at hr'
+    rcases hr' with rfl | hr'
+    · omega
+    · exact h2 r' hr'
+
+theorem sampleReplace_allSome (k n : Nat) (hn : 1 ≤ n) (d : List Nat)
+    (hb : inBounds (replScript k n) d = true) :
+    (sampleReplace k (List.range n) d).all (·.isSome) = true := by
+  obtain ⟨n', rfl⟩ : ∃ n', n = n' + 1 := ⟨n - 1, by omega⟩
+  rw [replScript_eq, scriptFrom_succ] at hb
+  obtain ⟨h1, h2⟩ := inBounds_replicate_one k _ d hb
+  rw [sampleReplace, List.range_succ_eq_map]
+  simp only [replLoop]
+  apply replLoop_allSome
+  rw [replRow_first 0 k d h1 h2]
+  simp
+
+/-! ## RotateInternalNodes: node by node -/
+
+theorem mem_space_append {bs cs d : List Nat} :
+    d ∈ space (bs ++ cs) ↔ ∃ d1 ∈ space bs, ∃ d2 ∈ space cs, d = d1 ++ d2 := by
+  rw [space_append]
+  simp only [List.mem_flatMap, List.mem_map]
+  constructor
+  · rintro ⟨d1, h1, d2, h2, rfl⟩; exact ⟨d1, h1, d2, h2, rfl⟩
+  · rintro ⟨d1, h1, d2, h2, rfl⟩; exact ⟨d1, h1, d2, h2, rfl⟩
+
+theorem rotAllPerms_cons (g : Nat) (degs d1 d2 : List Nat) (h : d1.length = g) :
+    rotAllPerms (g :: degs) (d1 ++ d2) = rotate (List.range g) d1 :: rotAllPerms degs d2 := by
+  simp [rotAllPerms, segments, h]
+
+/-- one arrangement (a permutation of the positions) for every node -/
+def PermsOf : List (List Nat) → List Nat → Prop
+  | [], [] => True
+  | p :: ps, g :: gs => p.Perm (List.range g) ∧ PermsOf ps gs
+  | _, _ => False
+
+theorem length_rotScript (g : Nat) : (rotScript g).length = g := by simp [rotScript]
+
+/-- `RotateInternalNodes`: the draw lists correspond one to one to the choices of one arrangement
+    of the neighbour positions for every node -/
+theorem rotAllPerms_bijective' (degs : List Nat) :
+    (∀ d ∈ space (rotAllPermScript degs),
+        PermsOf (rotAllPerms degs d) degs) ∧
+    (∀ d1 ∈ space (rotAllPermScript degs), ∀ d2 ∈ space (rotAllPermScript degs),
+        rotAllPerms degs d1 = rotAllPerms degs d2 → d1 = d2) ∧
+    (∀ ps : List (List Nat), PermsOf ps degs →
+        ∃ d ∈ space (rotAllPermScript degs), rotAllPerms degs d = ps) := by
+  induction degs with
+  | nil =>
+    refine ⟨?_, ?_, ?_⟩
+    · intro d _; simp [rotAllPerms, segments, PermsOf]
+    · intro d1 h1 d2 h2 _
+      simp [rotAllPermScript, space_nil] at h1 h2
+      rw [h1, h2]
+    · intro ps hps
+      cases ps with
+      | nil => exact ⟨[], by simp [rotAllPermScript, space_nil], by simp [rotAllPerms, segments]⟩
+      | cons p ps => simp [PermsOf] at hps
+  | cons g degs ih =>
+    obtain ⟨i1, i2, i3⟩ := ih
+    have hscript : rotAllPermScript (g :: degs) = rotScript g ++ rotAllPermScript degs := by
+      simp [rotAllPermScript]
+    -- rotate on one node, from `perm_bijective`
+    have r1 : ∀ d ∈ space (rotScript g), (rotate (List.range g) d).Perm (List.range g) := by
+      intro d hd; rw [rotate_range g d ((mem_space_iff _ _).1 hd)]
+      exact goPerm_perm g d ((mem_space_iff _ _).1 hd)
+    have r2 : ∀ d1 ∈ space (rotScript g), ∀ d2 ∈ space (rotScript g),
+        rotate (List.range g) d1 = rotate (List.range g) d2 → d1 = d2 := by
+      intro d1 h1 d2 h2 he
+      rw [rotate_range g d1 ((mem_space_iff _ _).1 h1), rotate_range g d2 ((mem_space_iff _ _).1 h2)] at he
+      exact goPerm_injective g d1 d2 ((mem_space_iff _ _).1 h1) ((mem_space_iff _ _).1 h2) he
+    have r3 : ∀ p : List Nat, p.Perm (List.range g) → ∃ d ∈ space (rotScript g), rotate (List.range g) d = p := by
+      intro p hp
+      obtain ⟨d, hd, he⟩ := goPerm_surjective g p hp
+      exact ⟨d, (mem_space_iff _ _).2 hd, by rw [rotate_range g d hd, he]⟩
+    refine ⟨?_, ?_, ?_⟩
+    · intro d hd
+      rw [hscript, mem_space_append] at hd
+      obtain ⟨a, ha, b, hb, rfl⟩ := hd
+      have hl : a.length = g := by rw [length_of_mem_space ha, length_rotScript]
+      rw [rotAllPerms_cons g degs a b hl]
+      exact ⟨r1 a ha, i1 b hb⟩
+    · intro d1 h1 d2 h2 he
+      rw [hscript, mem_space_append] at h1 h2
+      obtain ⟨a1, ha1, b1, hb1, rfl⟩ := h1
+      obtain ⟨a2, ha2, b2, hb2, rfl⟩ := h2
+      have hl1 : a1.length = g := by rw [length_of_mem_space ha1, length_rotScript]
+      have hl2 : a2.length = g := by rw [length_of_mem_space ha2, length_rotScript]
+      rw [rotAllPerms_cons g degs a1 b1 hl1, rotAllPerms_cons g degs a2 b2 hl2] at he
+      simp only [List.cons.injEq] at he
+      rw [r2 a1 ha1 a2 ha2 he.1, i2 b1 hb1 b2 hb2 he.2]
+    · intro ps hps
+      cases ps with
+      | nil => simp [PermsOf] at hps
+      | cons p ps =>
+        obtain ⟨hp, hrest⟩ := hps
+        obtain ⟨a, ha, hea⟩ := r3 _ hp
+        obtain ⟨b, hb, heb⟩ := i3 _ hrest
+        have hl : a.length = g := by rw [length_of_mem_space ha, length_rotScript]
+        refine ⟨a ++ b, ?_, ?_⟩
+        · rw [hscript, mem_space_append]; exact ⟨a, ha, b, hb, rfl⟩
+        · rw [rotAllPerms_cons g degs a b hl, hea, heb]
+
 end Gotree.C20
